@@ -1,5 +1,8 @@
 """Engine T: translation validation queries Q0/Q1/Q2 between an input AST P and the real transformer's output P'."""
 import ast
+import os
+import subprocess
+import tempfile
 import time
 
 import z3
@@ -23,8 +26,15 @@ class Stats:
         self.disagreements_checked = 0
         self.samples = []
         self.skip_reasons = {}
+        self.cross = {}              # external solver -> {"agree": n, "unknown": n, "disagree": n}
+        self.cross_disagreements = []
 
     def merge(self, o):
+        for k, d in o.cross.items():
+            t = self.cross.setdefault(k, {"agree": 0, "unknown": 0, "disagree": 0})
+            for kk, vv in d.items():
+                t[kk] += vv
+        self.cross_disagreements += o.cross_disagreements
         self.programs += o.programs
         for k, v in o.queries.items():
             self.queries[k] += v
@@ -42,12 +52,47 @@ class Stats:
             self.samples += o.samples[: 12 - len(self.samples)]
 
 
+# Every XEVERY-th query of a process is dumped as SMT-LIB2 and decided again by two other solvers (separate processes; ~1 s start-up each).
+# A definite answer that differs from z3 5.1.0's is a harness error (exit 3), never a pass; errors / timeouts there count as "unknown".
+XEVERY = int(os.environ.get("VERIF_XSOLVER_EVERY", "0") or 0)
+XSOLVERS = [("z3-4.8.12", ["/usr/bin/z3", "-T:20"]), ("cvc5-1.0.3", ["cvc5", "--tlimit=20000"])]
+_xcount = [0]
+
+
+def _cross(s, r, st):
+    with tempfile.NamedTemporaryFile("w", suffix=".smt2", delete=False) as f:
+        f.write("(set-logic ALL)\n" + s.to_smt2())
+        path = f.name
+    try:
+        for name, cmd in XSOLVERS:
+            t = st.cross.setdefault(name, {"agree": 0, "unknown": 0, "disagree": 0})
+            try:
+                p = subprocess.run(cmd + [path], capture_output=True, text=True, timeout=40)
+                out = p.stdout.strip().splitlines()
+            except Exception:  # noqa
+                out = []
+            ans = out[0].strip() if out else ""
+            if "(error" in "\n".join(out) or ans not in ("sat", "unsat"):
+                t["unknown"] += 1
+            elif ans == r:
+                t["agree"] += 1
+            else:
+                t["disagree"] += 1
+                st.cross_disagreements.append("%s answers %s where z3 5.1.0 answers %s: %s" % (name, ans, r, s.to_smt2()[:3000]))
+    finally:
+        os.unlink(path)
+
+
 def _check(s, st):
     t = time.perf_counter()
-    r = s.check()
+    r = str(s.check())
     st.solver_s += time.perf_counter() - t
     st.checks += 1
-    return str(r)
+    if XEVERY and r in ("sat", "unsat"):
+        _xcount[0] += 1
+        if _xcount[0] == 7 or _xcount[0] % XEVERY == 0:     # every process contributes at least one
+            _cross(s, r, st)
+    return r
 
 
 def free_names(tree):
